@@ -525,7 +525,7 @@ fn stub_rt_remove(_t: &mut RoutingTable, id: &Id) {
 #[kani::stub(std::time::Instant::now, clock::mock_now)]
 #[kani::stub(std::time::Instant::elapsed, clock::mock_elapsed)]
 #[kani::stub(getrandom::fill, fill_const_memset)]
-#[kani::stub(<crate::common::RoutingTableIterator as Iterator>::next, stub_iter_next)]
+#[kani::stub(<crate::common::RoutingTableIterator as std::iter::Iterator>::next, stub_iter_next)]
 #[kani::stub(RoutingTable::remove, stub_rt_remove)]
 fn c14_maintenance_round_removes_the_stale_and_pings_the_quiet() {
     let mut c = core(true);
